@@ -165,13 +165,31 @@ func (x *Exec) oblige(st *State, kind, name, label string, goal *Term, pos token
 		// a later change making them non-trivial keeps the same name.
 	}
 	assume := make([]*Term, 0, len(st.assume))
-	seenA := map[*Term]bool{}
+	seenA := map[string]bool{}
 	keepAlloc := len(x.allocd) > 0 || mentionsAllocFrontier(goal)
+	goalArrs := map[string]bool{}
+	arraySyms(goal, goalArrs)
 	for _, a := range st.assume {
-		if seenA[a] {
+		if seenA[a.String()] {
 			continue
 		}
-		seenA[a] = true
+		seenA[a.String()] = true
+		if isTypeFactForall(a) {
+			// a quantified type fact about arrays the goal never mentions cannot
+			// take part in its proof: leave it out (smaller, steadier queries)
+			fa := map[string]bool{}
+			arraySyms(a, fa)
+			relevant := true
+			for s := range fa {
+				if !goalArrs[s] {
+					relevant = false
+					break
+				}
+			}
+			if !relevant {
+				continue
+			}
+		}
 		if !keepAlloc && mentionsAllocFrontier(a) {
 			// allocation-frontier facts only matter once something was allocated
 			a = dropAllocConjuncts(a)
@@ -833,18 +851,23 @@ func (x *Exec) invariantLoop(s ast.Stmt, ord int, spec *LoopSpec, st *State, cs 
 			ends = append(ends, post(o, ncs)...)
 		}
 		x.loopHead = headState
-		for _, e := range ends {
+		for ei, e := range ends {
+			// one set of obligations per path through the body
+			sfx := ""
+			if len(ends) > 1 {
+				sfx = fmt.Sprintf("~%d", ei+1)
+			}
 			for _, be := range spec.BodyEnsures {
 				g := x.cbool(be.Expr, x.cctx(e, be))
-				x.obligeClause(e, "step", pfx+".step."+be.Label, be, g, s.Pos())
+				x.obligeClause(e, "step", pfx+".step."+be.Label+sfx, be, g, s.Pos())
 			}
 			for _, inv := range spec.Invariants {
 				g := x.cbool(inv.Expr, x.cctx(e, inv))
-				x.obligeClause(e, "inv.keep", pfx+".inv.keep."+inv.Label, inv, g, s.Pos())
+				x.obligeClause(e, "inv.keep", pfx+".inv.keep."+inv.Label+sfx, inv, g, s.Pos())
 			}
 			if v0 != nil {
 				v1 := x.cint(spec.Decreases.Expr, x.cctx(e, spec.Decreases))
-				x.oblige(e, "dec", pfx+".dec.decr", "", x.mathLt(v1, v0), s.Pos())
+				x.oblige(e, "dec", pfx+".dec.decr"+sfx, "", x.mathLt(v1, v0), s.Pos())
 			}
 		}
 		exits = append(exits, breaks...)
